@@ -41,6 +41,10 @@ Res(x) == [t |-> "tf", x |-> x]
 NoDE == [has |-> FALSE, x |-> TF(Zero(FALSE), Zero(FALSE))]
 Real(f) == f \ {Skip}
 
+\* (1 - 32 u^2)^2 v <= r^2 <= (1 + 32 u^2)^2 v
+SqrtOK(r, v) == LET lo == DSub(DOne, [neg |-> FALSE, mag |-> <<32>>, e |-> -U2])
+                    hi == DAdd(DOne, [neg |-> FALSE, mag |-> <<32>>, e |-> -U2])
+                IN ~r.neg /\ DCmp(DMul(DSqr(lo), v), DSqr(r)) <= 0 /\ DCmp(DSqr(r), DMul(DSqr(hi), v)) <= 0
 \* one step: [r |-> new accumulator, f |-> violated contract clauses]
 Bin(op, x, c) ==
   LET r == CASE op = "add" -> AAddTT(x, c) [] op = "sub" -> ASubTT(x, c) [] op = "mul" -> AMulTT(x, c)
@@ -49,6 +53,15 @@ Bin(op, x, c) ==
       A == IF op = "rsub" \/ op = "rdiv" THEN <<TFA(c), TFA(x)>> ELSE <<TFA(x), TFA(c)>>
       cop == IF op = "rsub" THEN "sub" ELSE IF op = "rdiv" THEN "div" ELSE op
   IN [r |-> r, f |-> Real(ArithFails(cop, A, Res(r), NoDE))]
+\* Euclidean division / remainder, min / max, copysign (their contracts: ContractsArith, ContractsBase)
+Bin2(op, x, c) ==
+  LET r == CASE op = "div_euclid" -> ADivEuclid(x, c) [] op = "rem_euclid" -> ARemEuclid(x, c)
+             [] op = "min" -> AMin(x, c) [] op = "max" -> AMax(x, c) [] op = "copysign" -> ACopySign(x, c)
+      A == <<TFA(x), TFA(c)>>
+      f == IF op \in {"div_euclid", "rem_euclid"} THEN Real(ArithFails(op, A, Res(r), NoDE))
+           ELSE IF op \in {"min", "max"} THEN Real(MinMaxFails(op, TFA(x), TFA(c), Res(r)))
+           ELSE Real(SignFails(op, A, Res(r)))
+  IN [r |-> r, f |-> f]
 BinW(op, x, w) ==
   LET r == CASE op = "add" -> AAddTF(x, w) [] op = "sub" -> ASubTF(x, w) [] op = "mul" -> AMulTF(x, w)
              [] op = "div" -> ADivTF(x, w) [] op = "rsub" -> ASubFT(w, x) [] op = "rdiv" -> ADivFT(w, x)
@@ -58,14 +71,19 @@ BinW(op, x, w) ==
 Un(op, x) ==
   LET r == CASE op = "neg" -> ANeg(x) [] op = "abs" -> AAbs(x) [] op = "floor" -> AFloor(x) [] op = "ceil" -> ACeil(x)
              [] op = "round" -> ARound(x) [] op = "trunc" -> ATrunc(x) [] op = "fract" -> AFract(x) [] op = "recip" -> ARecip(x)
+             [] op = "sqrt" -> ASqrt(AAbs(x)) [] op = "signum" -> ASignum(x) [] op = "sqr" -> AMulTT(x, x)
       f == IF op \in {"floor", "ceil", "round", "trunc", "fract"} THEN Real(FracFails(op, <<TFA(x)>>, Res(r)))
            ELSE IF op = "recip" THEN Real(ArithFails("recip", <<TFA(x)>>, Res(r), NoDE))
+           ELSE IF op = "sqr" THEN Real(ArithFails("mul", <<TFA(x), TFA(x)>>, Res(r), NoDE))
+           ELSE IF op = "signum" THEN Real(SignFails("signum", <<TFA(x)>>, Res(r)))
+           ELSE IF op = "sqrt" THEN (IF IsZeroTF(x) \/ (Valid(r) /\ SqrtOK(Value(r), DAbs(Value(x)))) THEN {} ELSE {<<"C13", "sqrt_bound">>})
            ELSE {}
   IN [r |-> r, f |-> f]
 
+Bin2Ops == {"div_euclid", "rem_euclid", "min", "max", "copysign"}
 BinOps == {"add", "sub", "mul", "div", "rem", "rsub", "rdiv"}
 BinWOps == {"add", "sub", "mul", "div", "rsub", "rdiv"}
-UnOps == {"neg", "abs", "floor", "ceil", "round", "trunc", "fract", "recip"}
+UnOps == {"neg", "abs", "floor", "ceil", "round", "trunc", "fract", "recip", "sqrt", "signum", "sqr"}
 DivOK(op, x, c) == ~(op \in {"div", "rem"} /\ IsZeroTF(c)) /\ ~(op = "rdiv" /\ IsZeroTF(x)) /\ ~(op = "recip" /\ IsZeroTF(x))
 
 Init == acc \in Seeds /\ bad = {}
@@ -73,6 +91,7 @@ StepTo(s, tag) == /\ InWindow(s.r)
                   /\ acc' = s.r
                   /\ bad' = IF s.f = {} THEN {} ELSE {<<tag, acc, s.r, s.f>>}
 Next == \/ \E op \in BinOps, c \in Pool : DivOK(op, acc, c) /\ StepTo(Bin(op, acc, c), <<op, c>>)
+        \/ \E op \in Bin2Ops, c \in Pool : ~(op \in {"div_euclid", "rem_euclid"} /\ (IsZeroTF(c) \/ IsZeroTF(acc))) /\ StepTo(Bin2(op, acc, c), <<op, c>>)
         \/ \E op \in BinWOps, w \in WPool : ~(op = "rdiv" /\ IsZeroTF(acc)) /\ StepTo(BinW(op, acc, w), <<op, w>>)
         \/ \E op \in UnOps : DivOK(op, acc, acc) /\ StepTo(Un(op, acc), <<op>>)
 Spec == Init /\ [][Next]_vars
